@@ -81,6 +81,11 @@ impl<T> MpscReceiver<T> {
     pub fn poll_next(&mut self, ctx: &mut TaskCx, Tracked(w): Tracked<&mut World>) -> (r: Poll<Option<T>>)
         ensures final(self).q() == old(self).q(), recv_post(old(self).q(), old(w), final(w), &r)
     { unimplemented!() }
+    // StreamExt::poll_next_unpin: the same poll, for a stream that is Unpin (the receiver is)
+    #[verifier::external_body]
+    pub fn poll_next_unpin(&mut self, ctx: &mut TaskCx, Tracked(w): Tracked<&mut World>) -> (r: Poll<Option<T>>)
+        ensures final(self).q() == old(self).q(), recv_post(old(self).q(), old(w), final(w), &r)
+    { unimplemented!() }
 }
 #[verifier::external_body] pub struct TryRecvError { x: u8 }
 impl<T> MpscReceiver<T> {
